@@ -262,6 +262,7 @@ class Patched(object):
         self.saved = (remote.Thread, remote.Lock, remote.time, subprocess.Popen, mpc.Client)
         _REAL['Popen'] = subprocess.Popen
         _REAL['Client'] = mpc.Client
+        sched.enable_monitoring(sched.code_objects_of(remote, remote.__file__))
         remote.Thread = sched.SchedThread
         remote.Lock = sched.SchedLock
         remote.time = sched.VirtualTime(real_time)
@@ -330,6 +331,7 @@ def client_body(env, world, idx, script):
                 # thread's close()" is the same in every equivalent reordering of a schedule.
                 ts.at = 'op%d:%s' % (i, op)
                 ts.func = 'client-script'
+                ts.midline = False
                 s.park(ts, None)
                 s.touch('ops', write=(op == 'X'))
             rec = {'thread': idx, 'i': i, 'op': op, 'begin': s.steps - 1, 'end': None, 'exc': None, 'reply': None}
@@ -389,15 +391,33 @@ def window_lines():
 
 
 _UID = [0]
+_IVIS = {}
+
+
+def _instr_info(code):
+    """(switch-point instructions, per-instruction access sets) of one code object of supp/remote.py"""
+    r = _IVIS.get(code)
+    if r is None:
+        src, lines, vis, acc, info = remote_source()
+        r = _IVIS[code] = sched.classify_instructions(code, set(info['shared_attributes']), vis, info['call_access'])
+    return r
+
+
+def _instr_info_all(code):
+    return None, _instr_info(code)[1]
 
 
 def run_once(config, chooser, max_steps=3000):
-    """config: {'scripts': [...], 'variant': name, 'mode': 'reduced'|'full'}.  Returns (sched, world)."""
+    """config: {'scripts': [...], 'variant': name, 'mode': 'reduced'|'full'|'instr'|'instr-full'}:
+    switch points = visible lines | all lines | shared-state instructions | all instructions.
+    Returns (sched, world)."""
     remote = _remote()
     src, lines, vis, acc, info = remote_source()
-    full = config.get('mode') == 'full'
+    mode = config.get('mode', 'reduced')
+    full = mode == 'full'
     s = sched.Scheduler(chooser, remote_file(), visible=None if full else vis, line_access=acc,
-                        max_steps=max_steps)
+                        max_steps=max_steps, instr=mode in ('instr', 'instr-full'),
+                        instr_info=_instr_info if mode == 'instr' else _instr_info_all)
     s.sleep_extra = VARIANTS[config['variant']]['sleep_extra']
     _UID[0] += 1
     w = World(s, config['variant'], 'run-%d-%d' % (os.getpid(), _UID[0]))
@@ -569,6 +589,13 @@ def explore_config(part, config, how, seed, reported):
         part.hist('popen_calls_hist', '%s|%s:%d' % ('with-close' if any('X' in x for x in config['scripts']) else 'no-close', config['variant'], len(w.launch_log)))
         part.hist('servers_started_per_run', len(w.servers))
         part.hist('steps_per_run(bucket of 20)', s.steps // 20 * 20)
+        if s.instr:
+            part.count('instruction_level_schedules')
+            part.count('instruction_level_preemptions(mid-line)', s.midline_preemptions)
+            if s.midline_preemptions:
+                part.count('schedules_with_a_mid_line_preemption')
+            for pos in s.midline_positions:
+                part.hist('mid_line_preemption_positions(func:line+offset)', pos)
         hits = count_window(s, win)
         if hits:
             part.count('schedules_starter_cleared_handle_between_test_and_join')
@@ -1127,6 +1154,47 @@ def build_jobs(run):
         batch.append((cfg(scripts, v, 'full'), {'kind': 'random', 'n': perf, 'steps': 250, 'max_steps': 20000}))
     for ch in core.chunks(batch, 4):
         jobs.append((400 if q else 4000, ch))
+    # ---- instruction granularity: switch points between the bytecodes of one source line ----------
+    # (attribute accesses to shared attributes and calls on visible lines; mode 'instr-full': every
+    # instruction).  Same scripts, same oracle; sleep-set DFS where it is cheap, random/PCT otherwise.
+    def isleep(scripts, variant, cross=False, c=None):
+        jobs.append((weight(scripts, variant) * 2, [(cfg(scripts, variant, 'instr'),
+                                                     {'kind': 'sleep', 'cap': c or cap, 'crosscheck': cross})]))
+    items = []
+    for s in NOCLOSE_SHORT + NOCLOSE_LONG + ['PP', 'PPC'] + CLOSE_3:
+        for v in (('none', 'popen-raise') if q else ('none', 'refuse2', 'popen-raise', 'timeout')):
+            items.append((cfg([s], v, 'instr'), {'kind': 'sleep', 'cap': cap, 'crosscheck': s in ('P', 'C', 'PC', 'CP', 'PP') and v == 'none'}))
+    for chunk in core.chunks(items, 8):
+        jobs.append((1500, chunk))
+    for p in short_pairs:
+        for v in (('none', 'popen-raise', 'timeout') if q else ('none', 'refuse2', 'popen-raise', 'timeout')):
+            isleep(p, v)
+    for p in long_pairs:
+        for v in (('none',) if q else ('none', 'popen-raise')):
+            isleep(p, v)
+    for p in (_pairs(['X', 'CX', 'PX'], ['C', 'PC', 'P', 'CX']) if q else _pairs(CLOSE_3, NOCLOSE_SHORT + ['X', 'CX'])):
+        for v in (('none',) if q else ('none', 'popen-raise')):
+            isleep(p, v)
+    for t in _multisets3(['P', 'C', 'PC']):
+        for v in (('none',) if q else ('none', 'popen-raise', 'timeout')):
+            isleep(t, v)
+    irng = run.rng('random-configs-instr')
+    batch = []
+    for i in range(run.pick(24, 160)):
+        n = 3 if irng.random() < 0.7 else 2
+        scripts = [irng.choice(pool if irng.random() < 0.3 else all_nc + ['P', 'PC']) for _ in range(n)]
+        v = irng.choice(['none', 'none', 'refuse2', 'popen-raise', 'timeout', 'popen-raise2'])
+        batch.append((cfg(scripts, v, 'instr'), {'kind': 'random', 'n': run.pick(150, 1000), 'steps': 120, 'max_steps': 12000}))
+    for ch in core.chunks(batch, 3):
+        jobs.append((500 if q else 3000, ch))
+    batch = []
+    for i in range(run.pick(16, 160)):
+        n = irng.choice((2, 2, 3))
+        scripts = [irng.choice(pool if irng.random() < 0.3 else all_nc + ['P', 'PC']) for _ in range(n)]
+        v = irng.choice(['none', 'none', 'refuse2', 'popen-raise', 'timeout'])
+        batch.append((cfg(scripts, v, 'instr-full'), {'kind': 'random', 'n': run.pick(60, 600), 'steps': 1500, 'max_steps': 120000}))
+    for ch in core.chunks(batch, 4):
+        jobs.append((400 if q else 4000, ch))
     return jobs, bounded
 
 
@@ -1174,8 +1242,17 @@ def main(run):
     exhausted = sum(v for k, v in run.counters.items() if k.startswith('configs_exhausted_'))
     capped = run.counters.get('configs_hit_schedule_cap', 0)
     run.extra['scheduler'] = {
-        'switch_points': 'reduced mode: line events of supp/remote.py on lines %s (shared attributes from the AST: %s); full mode: every line event' % (
+        'switch_points': 'reduced mode: line events of supp/remote.py on lines %s (shared attributes from the AST: %s); full mode: every line event; '
+                         'instr mode: instruction events of supp/remote.py on attribute loads/stores/deletes of those attributes and on call/with '
+                         'instructions of those lines; instr-full mode: every instruction event' % (
             info['visible_lines'], info['shared_attributes']),
+        'instruction_level': {
+            'schedules': run.counters.get('instruction_level_schedules', 0),
+            'preemptions_at_mid_line_positions': run.counters.get('instruction_level_preemptions(mid-line)', 0),
+            'distinct_mid_line_positions_preempted': len(run.hists.get('mid_line_preemption_positions(func:line+offset)', {})),
+            'note': 'a position is mid-line when an earlier switch point of the same source line was already passed in that frame, '
+                    'i.e. it cannot be reached by a line-granularity scheduler',
+        },
         'window_lines(test, join, clear)': window_lines(),
         'fault_variants': {k: v for k, v in VARIANTS.items()},
         'one_client_scripts': NOCLOSE_SHORT + NOCLOSE_LONG + CLOSE_3 + CLOSE_4,
@@ -1196,11 +1273,14 @@ def main(run):
              'launch/answer/deadlock oracle, or one real-subprocess scenario; non-trivial = a configuration for which at least two distinct '
              'interleavings (hash of the visible-step sequence) were executed, or a real scenario; distinct by configuration + exploration kind',
         require=('schedules', 'distinct_interleavings', 'calls_answered_own_reply', 'real_runs_judged', 'real_calls_answered',
-                 'schedules_random_full', 'real_disconnects', 'real_launch_failures_surfaced'),
+                 'schedules_random_full', 'real_disconnects', 'real_launch_failures_surfaced',
+                 'instruction_level_schedules', 'instruction_level_preemptions(mid-line)', 'schedules_sleep_instr',
+                 'schedules_random_instr-full'),
         assumptions=[
             'process launch and connection are fakes in monitor (a): a launched fake server answers every request with an echo; a server counts as '
             'ended when it received the close request or its connection object was closed',
-            'switch points are source lines (sys.settrace line events); interleavings inside one line are not explored',
+            'switch points are source lines (sys.monitoring LINE events) in modes reduced/full and bytecode instructions (INSTRUCTION events) in modes instr/instr-full; '
+            'one bytecode instruction is atomic (as under the GIL)',
             'reduced mode treats lines that touch no shared state (per AST of the current remote.py) as invisible; guarded by random schedules with every line visible',
             'the sleep-set reduction relies on per-step access sets (static per line + dynamic for lock/thread/clock/fakes); cross-checked against plain DFS on all 1-client and two 2-client configurations',
             'calls/closes that overlap in time with another thread\'s close() are not judged (the property does not say what they must do); wrong-caller replies are counted, not judged',
